@@ -27,3 +27,30 @@ contract('saml2_tophat:create_class_from_xml_string', types={'target_class': 'An
          ensures=[('C11-only-from-a-tree-of-the-hardened-parser',
                    'implies(result is not None, exists(lambda t: safe_tree(t, %s) and harvested(result, t), "Val"))' % _DOC)],
          raises={'Exception': 'True'}, modifies=[], clauses_from={'C11': ['C11-only-from-a-tree-of-the-hardened-parser']})
+
+contract('saml2_tophat:_extension_element_from_element_tree', trusted=True, modifies=[], params=['element_tree'],
+         returns="Inst('saml2_tophat:ExtensionElement')", ensures=['harvested(result, element_tree)', 'fresh(result)'],
+         raises={'Exception': 'True'}, assumptions=['E-PARSE'], note='ASSUMED: recursive copy of an element tree into ExtensionElement objects')
+contract('saml2_tophat:extension_element_from_string', types={'xml_string': 'Union(Str, Bytes)'},
+         returns="Inst('saml2_tophat:ExtensionElement')",
+         ensures=[('C11-only-from-a-tree-of-the-hardened-parser', 'exists(lambda t: safe_tree(t, xml_string) and harvested(result, t), "Val")')],
+         raises={'Exception': 'True'}, modifies=[], clauses_from={'C11': ['C11-only-from-a-tree-of-the-hardened-parser']})
+
+# ---- SOAP envelopes: ElementTree elements are sequences of their children
+ghost('et_children', ['Val'], 'Seq')
+declare_class('xml.etree.ElementTree:Element', seq='et_children', elem=EL)
+ghost('part_of', ['Val', 'Val'], 'Bool')        # (element, tree): the element is a node of the tree
+ghost('et_text', ['Val'], 'Val')                # ElementTree.tostring(element)
+from pyvc.state import axiom
+axiom('et_children', 'E-ET-children', "forall(lambda t, k: implies(0 <= k and k < len(et_children(t)), part_of(et_children(t)[k], t)), ['Val', 'Int'])",
+      modname='saml2_tophat.soap')
+axiom('part_of', 'E-ET-part-trans', "forall(lambda a, b, c: implies(part_of(a, b) and part_of(b, c), part_of(a, c)), ['Val', 'Val', 'Val'])", modname='saml2_tophat.soap')
+contract('xml.etree.ElementTree:tostring', trusted=True, pure=True, params=['element', 'encoding', 'method'],
+         defaults={'encoding': None, 'method': None}, returns='Bytes', ensures=['result == et_text(element)'], assumptions=['E-ET'])
+_FROM = 'exists(lambda t, e: safe_tree(t, text) and part_of(e, t) and result == et_text(e), ["Val", "Val"])'
+contract('saml2_tophat.soap:parse_soap_enveloped_saml_thingy', types={'text': 'Union(Str, Bytes)', 'expected_tags': 'List(Str)'},
+         returns='Union(Str, Bytes)',
+         ensures=[# C11: a message is only ever cut out of an envelope that the hardened parser accepted to its end
+                  ('C11-only-from-a-tree-of-the-hardened-parser', "implies(result != '', %s)" % _FROM)],
+         raises={'Exception': 'True'}, modifies=[], loops={0: {'inv': [], 'modifies': []}},
+         clauses_from={'C11': ['C11-only-from-a-tree-of-the-hardened-parser']})
